@@ -11,6 +11,7 @@ import (
 	"sort"
 	"strconv"
 	"strings"
+	"sync"
 	"time"
 
 	"verif/vrt"
@@ -75,6 +76,27 @@ func h64(s string) uint64 {
 	h.Write([]byte(s))
 	return h.Sum64()
 }
+
+// Beat tells the stall watchdog that the enumeration is alive and what it is about to do. A
+// scenario that calls Beat before every call into the code under test turns a call that never
+// returns (busy loop, blocked read) into a violation instead of a hung check: after stallAfter
+// without a beat the watchdog records key/detail, writes the result file and ends the process.
+func (c *Ctx) Beat(key, detail string) {
+	beatMu.Lock()
+	beatN++
+	beatKey, beatDetail, beatScenario, beatCtx = key, detail, c.name, c
+	beatMu.Unlock()
+}
+
+var (
+	beatMu       sync.Mutex
+	beatN        int64
+	beatKey      string
+	beatDetail   string
+	beatScenario string
+	beatCtx      *Ctx
+	stallAfter   = 45 * time.Second
+)
 
 // Eval counts one evaluated case with its (canonical) outcome.
 func (c *Ctx) Eval(outcome string) {
@@ -179,6 +201,38 @@ func Main(property string, scenarios []Scenario) int {
 	only := os.Getenv("VERIF_ONLY")
 	outcomes := map[uint64]struct{}{}
 	states := map[uint64]struct{}{}
+	// stall watchdog (see Ctx.Beat)
+	go func() {
+		var last int64 = -1
+		var since time.Time
+		for {
+			time.Sleep(3 * time.Second)
+			beatMu.Lock()
+			n, key, detail, scn := beatN, beatKey, beatDetail, beatScenario
+			beatMu.Unlock()
+			if n == 0 {
+				continue
+			}
+			if n != last {
+				last, since = n, time.Now()
+				continue
+			}
+			if time.Since(since) < stallAfter {
+				continue
+			}
+			res.Violations = append(res.Violations, Violation{Scenario: scn, Key: key, Detail: detail + fmt.Sprintf(" - the call did not return within %s", stallAfter)})
+			res.Caps = append(res.Caps, "aborted after a non-terminating call in "+scn)
+			res.States, res.Outcomes = len(states), len(outcomes)
+			res.WallS = time.Since(start).Seconds()
+			b, _ := json.Marshal(res)
+			if out := os.Getenv("VERIF_OUT"); out != "" {
+				os.WriteFile(out, b, 0644)
+			} else {
+				fmt.Println(string(b))
+			}
+			os.Exit(0)
+		}
+	}()
 	for i, sc := range scenarios {
 		split := sc.Run == nil && sc.Opt.SplitDepth > 0
 		if (!split && i%nshard != shard) || res.Internal != "" {
@@ -205,6 +259,9 @@ func Main(property string, scenarios []Scenario) int {
 			if c.Capped {
 				res.Caps = append(res.Caps, "deadline in "+sc.Name)
 			}
+			beatMu.Lock()
+			beatN = 0
+			beatMu.Unlock()
 			continue
 		}
 		var st vrt.Stats
